@@ -679,8 +679,31 @@ impl<'a> Gen<'a> {
                         let e = self.expr(Ty::Num, 1);
                         self.line(&format!("local unused = {}", e));
                     }
-                    4 => match self.rng.below(4) {
+                    4 => match self.rng.below(7) {
                         0 => self.line("local unused2 = ext_n()"),
+                        // composite values of a dropped declaration: an effect in every slot a side-effect analysis
+                        // has to look into (computed key, entry value, nested table, field of a call, operands)
+                        4 => {
+                            let shape = match self.rng.below(6) {
+                                0 => "{ [ext_n(21)] = true }",
+                                1 => "{ [ext_n(22)] = 1, [2] = ext_n(23) }",
+                                2 => "{ k = 1, { [ext_n(24)] = 2 } }",
+                                3 => "{ 1, [ext_n(25) + 1] = 2, 3 }",
+                                4 => "{ [{ ext_n(26) }] = 1 }",
+                                _ => "{ [1] = 1, [ext_b(27) and 1 or 2] = 3 }",
+                            };
+                            self.line(&format!("local unused7 = {}", shape))
+                        }
+                        5 => {
+                            let shape = match self.rng.below(4) {
+                                0 => "({ ext_n(31) })[1]",
+                                1 => "#{ [ext_n(32)] = 1 }",
+                                2 => "-ext_n(33)",
+                                _ => "({ n = 1 })[ext_n(34) and \"n\"]",
+                            };
+                            self.line(&format!("local unused8 = {}", shape))
+                        }
+                        6 => self.line("local unused9, unused10 = { [ext_n(41)] = 1 }, { ext_n(42) }"),
                         1 => {
                             let v = self.var_of(Ty::Num).unwrap_or_else(|| "ext_n(0)".to_owned());
                             self.line(&format!("local unused4 = {} or ext_n(9)", v))
